@@ -1,4 +1,5 @@
 import PysnarkModel.Lemmas.Array
+import PysnarkModel.Gen.Api
 import PysnarkModel.Lemmas.OblVal
 /-!
 # C15 — secret-index array access reads and writes exactly one element
@@ -122,5 +123,13 @@ example : (match (do let (arr, _) ← exArr; let j ← privVal 3; arrayGet arr (
     | .ok (_, s1) => !(s1.cons.all (fun c =>
         (LC.eval s1.assign c.1 * LC.eval s1.assign c.2.1 - LC.eval s1.assign c.2.2) % 97 == 0))
     | _ => false) = true := by decide +kernel
+
+
+/-- **API surface pinned** (regenerated from the source on every run, `Gen/Api.lean`): the methods the model of this
+property transcribes are exactly the methods the code has.  A method added to the code (say an in-place `__iadd__`, which
+Python would prefer over the `__add__` the model knows) or removed from it changes the generated list and this obligation
+fails: the tie is then broken by construction and the check runs its extended search. -/
+theorem C15_api_surface :
+    Gen.api_array = ["Array.__init__", "Array.__repr__", "Array.__getitem__", "Array.__setitem__", "Array.__sub__", "Array.__add__", "Array.__rmul__", "Array.__if_then_else__", "Array.assert_eq", "Array.joined", "ArrayRow.__init__", "ArrayRow.__setitem__"] := rfl
 
 end Pysnark
